@@ -42,6 +42,7 @@ def worker(args):
     if i % 3 == 0:
         p["extra_alpha"] = b"\x00\xff"
     g, case = tokens.base_case(chk, rng, p)
+    noln = False
     if i % 22 == 1:
         # uncompressed tables of a large rule set: offsets beyond 32767 -> 32-bit elements
         from . import c01
@@ -56,12 +57,42 @@ def worker(args):
         case["defs"] = []
         g.alpha = b"k0123456789 \n"
         feat("width_boundary_rules:%d" % nkw)
+        if (i // 11) % 2 == 0:
+            # ... and a file whose last table has 16/32-bit elements and ends exactly on a
+            # 64-bit boundary (no padding after it): a truncation inside the very last element
+            # is then the last thing a reader can notice.  Found by trying rule counts.
+            noln = True         # (with %option yylineno the last table is the 8-bit eol table)
+            for extra in range(0, 12):
+                trial = dict(case)
+                trial["rules"] = case["rules"] + [
+                    {"scs": None, "bol": False, "pat": ("str", ("q%02d" % k).encode()), "trail": None,
+                     "act": []} for k in range(extra)]
+                trial["opts"] = dict(case["opts"], flavour="nr", tables_file="s.tbl", yylineno=False)
+                td = os.path.join(chk.scratch.path, "tail%d_%d" % (i, extra))
+                os.makedirs(td, exist_ok=True)
+                util.write(os.path.join(td, "s.l"),
+                           emit.Emitter(trial, "nr", None).spec().encode("latin1"))
+                cmd, r = runner.flex_generate(chk.flex("san"), os.path.join(td, "s.l"),
+                                              os.path.join(td, "s.c"),
+                                              lib.tables_args(TABLES[i % len(TABLES)], 8), cwd=td)
+                ok = False
+                try:
+                    ts = tblfile.parse(util.read(os.path.join(td, "s.tbl"), True))[0]["tables"]
+                    last = ts[-1]
+                    ok = last["width"] >= 2 and (12 + len(last["values"]) * last["width"]) % 8 == 0
+                except (OSError, tblfile.FormatError, IndexError):
+                    pass
+                shutil.rmtree(td, ignore_errors=True)
+                if ok:
+                    case["rules"] = trial["rules"]
+                    feat("last_table_wide_and_unpadded")
+                    break
     mode = i % 3
     f = {"ret": 25}
     if mode == 1:
         f["reject"] = 40
     scripts.decorate(case, rng, f)
-    case["opts"]["yylineno"] = (i % 2 == 0)
+    case["opts"]["yylineno"] = (i % 2 == 0) and not noln
     case["opts"]["ledger"] = True
     ctx = gen.ctx_of(case)
     tb = TABLES[i % len(TABLES)]
@@ -235,15 +266,17 @@ def worker(args):
                 pass
     # fault enumeration: truncations and corruptions
     n = len(data)
-    if i % 4 == 0 or tier != "quick":
+    if i % 4 == 0 or i % 11 == 2 or tier != "quick":
         if n <= 2600:
             cuts = list(range(0, n))
             feat("truncation_exhaustive_files")
         else:
-            cuts = sorted(set([0, 1, 3, 4, 7, 8, 11, 12, 13, 14, 15, 16, n - 1, n - 2, n - 7, n - 8, n - 9] +
+            # (every offset inside the last elements and padding of the file, the set header,
+            # and a sample of the rest)
+            cuts = sorted(set(list(range(0, 40)) + list(range(max(0, n - 24), n)) +
                               [rng.below(n) for _ in range(120)]))
         if tier == "quick" and len(cuts) > 700:
-            cuts = cuts[:200] + rng.sample(cuts[200:], 500)
+            cuts = cuts[:200] + rng.sample(cuts[200:-24], 476) + cuts[-24:]
         cdir = os.path.join(wd, "B")
         for cpos in cuts:
             fp = os.path.join(cdir, "trunc.tbl")
@@ -341,7 +374,7 @@ def run(pid, tier):
         chk.require("table:" + t)
     for k in ("width:1", "width:2", "width:4", "struct_table", "ptrans_table", "format_ok",
               "verify_pass", "verify_fail_detected", "concatenation_ok", "truncation_exhaustive_files",
-              "ledger_empty_after_destroy"):
+              "ledger_empty_after_destroy", "last_table_wide_and_unpadded"):
         chk.require(k)
     chk.require("truncations", 300)
     chk.require("corruptions", 20)
